@@ -4,9 +4,9 @@
    Definitions only.  Conventions as in C14Model.v: byte slice = list N with cap = len, Go int = Z,
    out-of-range index / slice expression = Panic, loops on fuel.
    `append(xs, x)` on a result list is `x :: xs` on a reversed accumulator, reversed once at the end.
-   Not modelled: GetParameterSetsFromByteStream finally copies the parameter sets into one fresh backing
-   array (psData, make([]byte, totSize)); the returned VALUES are those of the sub-slices of data (the
-   correspondence check would see a wrong totSize as a panic or a truncated set). *)
+   GetParameterSetsFromByteStream's final repacking of the sets into one fresh backing array (totSize,
+   psData, the three copy loops, the returned sub-slices of psData) IS modelled: the returned sets are
+   read from the final psData, so a wrong totSize shows as a Panic or as wrong bytes. *)
 From V.lib Require Import Base.
 From V.c14 Require Import C14Spec C14Model.
 Local Open Scope Z_scope.
@@ -193,11 +193,11 @@ Definition hevc_nalu_end (data : list N) (currNaluStart i : Z) : res Z :=
 
 Definition hevc_ps : Type := (list (list N) * list (list N) * list (list N))%type.
 
-(* annexb.go:4  GetParameterSetsFromByteStream, the scanning loop.
-   Result: inl (currNaluStart, sets) = the loop ran to i = n-3 (videoFound still false);
-           inr sets                  = `videoFound = true; break`.  The sets are reversed accumulators. *)
-Fixpoint hevc_gpsb_loop (fuel : nat) (data : list N) (n i currNaluStart : Z) (acc : hevc_ps)
-  : res ((Z * hevc_ps) + hevc_ps) :=
+(* annexb.go:4  GetParameterSetsFromByteStream, the scanning loop (state: currNaluStart, the three lists, totSize).
+   Result: inl (currNaluStart, sets, totSize) = the loop ran to i = n-3 (videoFound still false);
+           inr (sets, totSize)                = `videoFound = true; break`.  The sets are reversed accumulators. *)
+Fixpoint hevc_gpsb_loop (fuel : nat) (data : list N) (n i currNaluStart : Z) (acc : hevc_ps) (totSize : Z)
+  : res ((Z * hevc_ps * Z) + (hevc_ps * Z)) :=
   match fuel with
   | O => OutOfFuel
   | S f =>
@@ -205,47 +205,89 @@ Fixpoint hevc_gpsb_loop (fuel : nat) (data : list N) (n i currNaluStart : Z) (ac
         do m <- hevc_sc_at data i;
         if m then
           let '(vpss, spss, ppss) := acc in
-          do acc' <- (if currNaluStart >? 0 then
-                        do currNaluEnd <- hevc_nalu_end data currNaluStart i;
-                        do h <- getb data currNaluStart;
-                        let naluType := hevc_GetNaluType h in
-                        if N.eqb naluType 32 then
-                          do x <- slice data currNaluStart currNaluEnd; Ok (x :: vpss, spss, ppss)
-                        else if N.eqb naluType 33 then
-                          do x <- slice data currNaluStart currNaluEnd; Ok (vpss, x :: spss, ppss)
-                        else if N.eqb naluType 34 then
-                          do x <- slice data currNaluStart currNaluEnd; Ok (vpss, spss, x :: ppss)
-                        else Ok (vpss, spss, ppss)
-                      else Ok (vpss, spss, ppss));
+          do at' <- (if currNaluStart >? 0 then
+                       do currNaluEnd <- hevc_nalu_end data currNaluStart i;
+                       do h <- getb data currNaluStart;
+                       let naluType := hevc_GetNaluType h in
+                       if N.eqb naluType 32 then
+                         do x <- slice data currNaluStart currNaluEnd;
+                         Ok ((x :: vpss, spss, ppss), totSize + (currNaluEnd - currNaluStart))
+                       else if N.eqb naluType 33 then
+                         do x <- slice data currNaluStart currNaluEnd;
+                         Ok ((vpss, x :: spss, ppss), totSize + (currNaluEnd - currNaluStart))
+                       else if N.eqb naluType 34 then
+                         do x <- slice data currNaluStart currNaluEnd;
+                         Ok ((vpss, spss, x :: ppss), totSize + (currNaluEnd - currNaluStart))
+                       else Ok ((vpss, spss, ppss), totSize)
+                     else Ok ((vpss, spss, ppss), totSize));
           let currNaluStart := i + 3 in
           do h <- getb data currNaluStart;
           let nextNaluType := hevc_GetNaluType h in
-          if (nextNaluType <? 32)%N then Ok (inr acc')
-          else hevc_gpsb_loop f data n (i + 1) currNaluStart acc'
-        else hevc_gpsb_loop f data n (i + 1) currNaluStart acc
-      else Ok (inl (currNaluStart, acc))
+          if (nextNaluType <? 32)%N then Ok (inr at')
+          else hevc_gpsb_loop f data n (i + 1) currNaluStart (fst at') (snd at')
+        else hevc_gpsb_loop f data n (i + 1) currNaluStart acc totSize
+      else Ok (inl (currNaluStart, acc, totSize))
   end.
 
-(* if currNaluStart > 0 && !videoFound { switch GetNaluType(data[currNaluStart]) { case NALU_VPS: vpss = append(vpss, data[currNaluStart:n]) ... } } *)
-Definition hevc_gpsb_finish (data : list N) (r : (Z * hevc_ps) + hevc_ps) : res hevc_ps :=
+(* if currNaluStart > 0 && !videoFound { switch GetNaluType(data[currNaluStart]) {
+     case NALU_VPS: vpss = append(vpss, data[currNaluStart:n]); totSize += n - currNaluStart ... } }
+   result: the three lists in order, totSize *)
+Definition hevc_gpsb_finish (data : list N) (r : (Z * hevc_ps * Z) + (hevc_ps * Z)) : res (hevc_ps * Z) :=
   match r with
-  | inr (vpss, spss, ppss) => Ok (rev vpss, rev spss, rev ppss)
-  | inl (currNaluStart, (vpss, spss, ppss)) =>
+  | inr ((vpss, spss, ppss), totSize) => Ok ((rev vpss, rev spss, rev ppss), totSize)
+  | inl (currNaluStart, (vpss, spss, ppss), totSize) =>
       if currNaluStart >? 0 then
         do h <- getb data currNaluStart;
         let naluType := hevc_GetNaluType h in
+        let n := Zlen data in
         if N.eqb naluType 32 then
-          do x <- slice data currNaluStart (Zlen data); Ok (rev (x :: vpss), rev spss, rev ppss)
+          do x <- slice data currNaluStart n; Ok ((rev (x :: vpss), rev spss, rev ppss), totSize + (n - currNaluStart))
         else if N.eqb naluType 33 then
-          do x <- slice data currNaluStart (Zlen data); Ok (rev vpss, rev (x :: spss), rev ppss)
+          do x <- slice data currNaluStart n; Ok ((rev vpss, rev (x :: spss), rev ppss), totSize + (n - currNaluStart))
         else if N.eqb naluType 34 then
-          do x <- slice data currNaluStart (Zlen data); Ok (rev vpss, rev spss, rev (x :: ppss))
-        else Ok (rev vpss, rev spss, rev ppss)
-      else Ok (rev vpss, rev spss, rev ppss)
+          do x <- slice data currNaluStart n; Ok ((rev vpss, rev spss, rev (x :: ppss)), totSize + (n - currNaluStart))
+        else Ok ((rev vpss, rev spss, rev ppss), totSize)
+      else Ok ((rev vpss, rev spss, rev ppss), totSize)
   end.
+
+(* pos := 0; for i := range xs { copy(psData[pos:], xs[i]); xs[i] = psData[pos : pos+len(xs[i])]; pos += len(xs[i]) }
+   The new xs[i] alias psData: they are kept as (low, high) index pairs and read from the FINAL psData below.
+   psData[pos:] panics when pos > len(psData); psData[pos:pos+len] panics beyond cap (= len for make). *)
+Fixpoint hevc_repack_loop (psData : list N) (pos : Z) (xs : list (list N)) (views : list (Z * Z))
+  : res (list N * Z * list (Z * Z)) :=
+  match xs with
+  | [] => Ok (psData, pos, rev views)
+  | x :: r =>
+      do psData' <- copy_into psData pos (Zlen psData) x;
+      do _ <- slice psData' pos (pos + Zlen x);
+      hevc_repack_loop psData' (pos + Zlen x) r ((pos, pos + Zlen x) :: views)
+  end.
+
+Fixpoint hevc_views (psData : list N) (vs : list (Z * Z)) : res (list (list N)) :=
+  match vs with
+  | [] => Ok []
+  | (a, b) :: r => do x <- slice psData a b; do t <- hevc_views psData r; Ok (x :: t)
+  end.
+
+(* psData := make([]byte, totSize) (a negative size panics); the three copy loops share psData and pos *)
+Definition hevc_repack (ps : hevc_ps) (totSize : Z) : res hevc_ps :=
+  let '(vpss, spss, ppss) := ps in
+  if totSize <? 0 then Panic
+  else
+    let psData := repeat 0%N (Z.to_nat totSize) in
+    do r1 <- hevc_repack_loop psData 0 vpss [];
+    do r2 <- hevc_repack_loop (fst (fst r1)) (snd (fst r1)) spss [];
+    do r3 <- hevc_repack_loop (fst (fst r2)) (snd (fst r2)) ppss [];
+    let final := fst (fst r3) in
+    do v <- hevc_views final (snd r1);
+    do s <- hevc_views final (snd r2);
+    do p <- hevc_views final (snd r3);
+    Ok (v, s, p).
+
 Definition hevc_GetParameterSetsFromByteStream (data : list N) : res hevc_ps :=
-  do r <- hevc_gpsb_loop (S (List.length data)) data (Zlen data) 0 (-1) ([], [], []);
-  hevc_gpsb_finish data r.
+  do r <- hevc_gpsb_loop (S (List.length data)) data (Zlen data) 0 (-1) ([], [], []) 0;
+  do pt <- hevc_gpsb_finish data r;
+  hevc_repack (fst pt) (snd pt).
 
 (* annexb.go:77  ExtractNalusOfTypeFromByteStream(nType, data, stopAtVideo), the scanning loop.
    Result: inl (currNaluStart, nalus) = loop ran to the end; inr nalus = `return nalus` inside the loop. *)
